@@ -138,6 +138,11 @@ type Server struct {
 
 	restores []RestoreCheck
 	curConn  int
+	// inCommand is true while a client command executes: an expired key it touches is deleted and,
+	// like a master does (expireIfNeeded), a DEL for it is propagated in front of the command's own
+	// effects. PropagateExpire switches that on (off by default: only C13 models it).
+	inCommand       bool
+	PropagateExpire bool
 
 	// MachineryErrors collects problems of the double itself (e.g. unsupported Lua);
 	// harnesses turn a non-empty list into exit 2, never into a violation.
@@ -642,7 +647,9 @@ func (s *Server) executeNoRoute(cs *ConnState, r *Req) []byte {
 			return rep
 		}
 	}
+	s.inCommand = true
 	rep := s.command(cs, r.Argv)
+	s.inCommand = false
 	if len(rep) > 0 && rep[0] == '-' {
 		r.Failed = true
 	}
